@@ -312,6 +312,58 @@ def level2(repo, res):
     if not ok:
         res.add(Finding("L2-GROUP", W.rel, "getBH_level2", calls[0], f"a group of sources must be evaluated with the function that defines the group: {why} "
                         "(otherwise a source's row is computed with another source's field function)", calls[0].lineno))
+    # ---- L2-SCATTER: a group's rows are written to the positions recorded for its members (scatter), never read through them
+    order_keys = set()
+    for n in ast.walk(fn):
+        if isinstance(n, ast.Call) and isinstance(n.func, ast.Attribute) and n.func.attr == "append" and n.args and isinstance(n.args[0], ast.Name):
+            t = ast.unparse(n.func.value)
+            mm = re.search(r"\[['\"](\w*order\w*)['\"]\]$", t)
+            if mm:
+                order_keys.add(mm.group(1))
+    if order_keys:
+        loads, stores = [], []
+        parents = {}
+        for x in ast.walk(fn):
+            for ch in ast.iter_child_nodes(x):
+                parents[id(ch)] = x
+        for n in ast.walk(fn):
+            if isinstance(n, ast.Subscript) and isinstance(n.slice, ast.Constant) and n.slice.value in order_keys:
+                # how is the recorded position list used?  climb to the outermost subscript that uses it as an index
+                p, child = parents.get(id(n)), n
+                while isinstance(p, ast.Subscript) and p.value is child:      # group["order"][gr_ind]
+                    child, p = p, parents.get(id(p))
+                if isinstance(p, ast.Subscript) and p.slice is child:
+                    (stores if isinstance(p.ctx, ast.Store) else loads).append(p)
+                elif isinstance(p, ast.Attribute) and p.attr == "append":
+                    continue
+                elif isinstance(p, (ast.Subscript, ast.Index if hasattr(ast, "Index") else ast.Subscript)):
+                    continue
+        # local names that collect the recorded positions (order.extend(group["order"]), order = ..., order += ...)
+        def mentions_key(e):
+            return any(isinstance(x, ast.Subscript) and isinstance(x.slice, ast.Constant) and x.slice.value in order_keys for x in ast.walk(e))
+        aliases = set()
+        for n in ast.walk(fn):
+            if isinstance(n, ast.Call) and isinstance(n.func, ast.Attribute) and n.func.attr in ("extend", "append") and isinstance(n.func.value, ast.Name) \
+                    and n.args and mentions_key(n.args[0]):
+                aliases.add(n.func.value.id)
+            if isinstance(n, (ast.Assign, ast.AugAssign)) and mentions_key(n.value):
+                for t in (n.targets if isinstance(n, ast.Assign) else [n.target]):
+                    if isinstance(t, ast.Name):
+                        aliases.add(t.id)
+        for n in ast.walk(fn):
+            if isinstance(n, ast.Subscript):
+                sl = n.slice
+                direct = isinstance(sl, ast.Name) and sl.id in aliases       # X[order]; X[np.argsort(order)] is the inverse and fine
+                if direct:
+                    (stores if isinstance(n.ctx, ast.Store) else loads).append(n)
+        ok = bool(stores) and not loads
+        res.ob("L2-SCATTER:group results are scattered to the members' positions", ok,
+               {"rule": "L2-SCATTER", "position_lists": sorted(order_keys), "used_as_store_index": [norm(x) for x in stores], "used_as_load_index": [norm(x) for x in loads]})
+        if loads:
+            res.add(Finding("L2-SCATTER", W.rel, "getBH_level2", loads[0], "the recorded member positions are used to *gather* from the stacked group results; "
+                            "row l of the output must be written at position order[i] (the inverse permutation would be needed for a gather)", loads[0].lineno))
+        elif not stores:
+            res.notes.append("L2-SCATTER: position list not used as a store index (idiom changed) - undecided")
     # ---- L2-PAD
     import rules_t1
     t1 = rules_t1.analyse(fn)
@@ -399,7 +451,7 @@ def twins(repo, res):
 
 
 def run(repo, res, tier):
-    res.rules = ["RUN-GROUP admission rule", "K1 batch-level branches", "K2 row-axis reductions", "TWIN scalar/vector branch agreement", "L2-GROUP", "L2-PAD"]
+    res.rules = ["RUN-GROUP admission rule", "K1 batch-level branches", "K2 row-axis reductions", "TWIN scalar/vector branch agreement", "L2-GROUP", "L2-SCATTER", "L2-PAD"]
     run_group(repo, res)
     k1_k2(repo, res)
     twins(repo, res)
